@@ -62,6 +62,13 @@ def run_property(P, pid, tier, seed, replay):
             breaks.append({"kind": "audit", "what": "Print Assumptions not closed / not allow-listed",
                            "detail": json.dumps(bad)[:1500] if bad else raw[-1500:]})
     obligations, discharged, detail = vlib.count_obligations(props_v)
+    coqchk_out = None
+    if okp and tier == "thorough" and not replay:
+        # independent checker over the property file and everything it depends on; lists axioms
+        rc, out = vlib.sh("ulimit -v 24000000; exec coqchk -o -silent -Q theories BP7 BP7.Props.%s" % pid, cwd=vlib.COQ, timeout=3000)
+        coqchk_out = out[-1200:]
+        if rc != 0 or "Axioms: <none>" not in out.replace("\n", " "):
+            breaks.append({"kind": "audit", "what": "coqchk failed or reports axioms", "detail": out[-1500:]})
 
     # ---- 3. executables ----------------------------------------------------------------
     okr, outr = vlib.build_modelrun() if okm else (False, "model did not build")
@@ -216,6 +223,7 @@ def run_property(P, pid, tier, seed, replay):
             "theorems": P.THEOREMS,
             "print_assumptions": {k: v.strip()[:300] for k, v in pa.items()},
             "proof_files": detail,
+            "coqchk": coqchk_out,
             "evaluations": evaluations, "distinct_nontrivial": len(nontrivial),
             "rule": P.RULE, "samples": samples,
             "distribution": dict(dist.most_common(40)),
